@@ -170,3 +170,133 @@ Proof.
   intros Hc En El.
   destruct (coupled_total Qc 0 Qcplus _ s Hc En) as [T C]. rewrite C, T. unfold es_recompute. rewrite El, vsum_sumQ, !map_map. auto.
 Qed.
+
+(* ---------------------------------------------------------------- d = 1 (coarsening version 0) *)
+Open Scope Z_scope.
+(* in one dimension the standard scheme is the single grid [lmax] with coefficient 1 ... *)
+Lemma std_scheme_dim1 lmin lmax : lmin <= lmax -> combi_scheme_standard 1 lmin lmax = [([lmax], 1)].
+Proof.
+  intro H. unfold combi_scheme_standard.
+  replace (Z.min (Z.of_nat 1) (lmax - lmin + 1)) with 1 by lia.
+  cbn [Z.to_nat Pos.to_nat Pos.iter_op seq flat_map Nat.even Nat.sub binom fact getGrids map app].
+  change (seq 0 (Pos.to_nat 1)) with [0%nat]. cbn [flat_map app Nat.even]. change (binom 0 0) with 1. change (Z.of_nat 0) with 0.
+  replace (lmax - lmin + 1 - 0 + (lmin - 1)) with lmax by lia. reflexivity.
+Qed.
+
+(* ... and the local combination of an area with coarsening value c is the single grid [lmax - c] (relative to lmin): the model's test
+   top_gap < c is false for one level (no second largest level; the repaired code skips the test in one dimension) *)
+Lemma local_combi_v0_dim1 lmin lmax base c : 0 <= lmin -> 0 <= c <= lmax - lmin ->
+  local_combi (mkCP 1 0 lmin lmax base) c = [([lmax - c - lmin], 1)].
+Proof.
+  intros H0 Hc. unfold local_combi, the_scheme. cbn [cp_dim cp_lmin cp_lmax].
+  rewrite (std_scheme_dim1 lmin lmax) by lia.
+  cbn [coarsen_all]. unfold coarsen_grid. cbn [cp_version cp_lmin]. change (0 =? 0) with true. cbv iota.
+  unfold top_gap. cbn [maxl fold_right hd remove_first]. rewrite Z.max_id, Z.eqb_refl. cbn [maxl fold_right hd].
+  destruct (lmax - 0 <? c) eqn:E; [apply Z.ltb_lt in E; lia|].
+  cbn [dec_first]. rewrite Z.eqb_refl. cbn [dict_get]. cbn [fst snd computed_grids filter map sub_lmin]. reflexivity.
+Qed.
+
+Theorem es_v0_area_value_invariant_dim1 (F : box -> lv -> Qc) lmin lmax base (x : area) :
+  0 <= lmin -> 0 <= a_coarse x <= lmax - lmin ->
+  es_area_value F (mkCP 1 0 lmin (lmax + 1) base) (update_area x) = es_area_value F (mkCP 1 0 lmin lmax base) x.
+Proof.
+  intros H0 H. unfold es_area_value, es_area_parts. cbn [update_area a_coarse abox a_start a_end].
+  rewrite (local_combi_v0_dim1 lmin (lmax + 1) base (a_coarse x + 1)) by lia.
+  rewrite (local_combi_v0_dim1 lmin lmax base (a_coarse x)) by lia.
+  replace (lmax + 1 - (a_coarse x + 1) - lmin) with (lmax - a_coarse x - lmin) by lia. reflexivity.
+Qed.
+
+(* ---------------------------------------------------------------- the C07 step function keeps the values of the areas it does not refine *)
+(* version 0, d >= 2: the value of an area depends on the scheme only through lmax - coarsening *)
+Lemma es_v0_value_level (F : box -> lv -> Qc) n lmin base lmax lmax' (x y : area) :
+  abox y = abox x -> lmax' - a_coarse y = lmax - a_coarse x ->
+  0 <= a_coarse x <= lmax - lmin -> 0 <= a_coarse y <= lmax' - lmin ->
+  es_area_value F (mkCP (S (S n)) 0 lmin lmax' base) y = es_area_value F (mkCP (S (S n)) 0 lmin lmax base) x.
+Proof.
+  intros Eb El Hx Hy. unfold es_area_value, es_area_parts. rewrite Eb.
+  assert (P1 := local_combi_v0_perm n lmin lmax' (a_coarse y) base Hy).
+  assert (P2 := local_combi_v0_perm n lmin lmax (a_coarse x) base Hx).
+  rewrite El in P1.
+  apply sumQ_perm_local. apply Permutation_map. apply (Permutation_trans P1). apply Permutation_sym. exact P2.
+Qed.
+
+(* every area keeps its position, its box and its level lmax - coarsening (and stays within the bounds) *)
+Definition in_bounds (st : state) (y : area) : Prop := 0 <= a_coarse y <= st_lmax st - st_lmin st.
+Definition KeepsLevels (st st' : state) : Prop :=
+  st_dim st' = st_dim st /\ st_version st' = st_version st /\ st_lmin st' = st_lmin st /\ st_base st' = st_base st /\
+  forall j y, nth_error (st_objs st) j = Some y -> in_bounds st y ->
+    exists y', nth_error (st_objs st') j = Some y' /\ abox y' = abox y /\
+               st_lmax st' - a_coarse y' = st_lmax st - a_coarse y /\ in_bounds st' y'.
+
+Lemma keeps_refl st : KeepsLevels st st.
+Proof. repeat split; try reflexivity. intros j y H B. exists y. auto. Qed.
+
+Lemma keeps_trans a b c : KeepsLevels a b -> KeepsLevels b c -> KeepsLevels a c.
+Proof.
+  intros [D1 [V1 [L1 [B1 H1]]]] [D2 [V2 [L2 [B2 H2]]]]. repeat split; try congruence.
+  intros j y Hy By. destruct (H1 j y Hy By) as [y1 [N1 [E1 [Lv1 Bd1]]]]. destruct (H2 j y1 N1 Bd1) as [y2 [N2 [E2 [Lv2 Bd2]]]].
+  exists y2. repeat split; try congruence; try lia; apply Bd2.
+Qed.
+
+Lemma nth_kill i : forall l j (y : area), nth_error l j = Some y ->
+  exists y', nth_error (kill_nth i l) j = Some y' /\ abox y' = abox y /\ a_coarse y' = a_coarse y.
+Proof.
+  induction i as [|i IH]; intros [|x l] [|j] y H; cbn in *; try discriminate.
+  - injection H as <-. exists (kill x). auto.
+  - exists y. auto.
+  - injection H as <-. exists x. auto.
+  - apply IH. exact H.
+Qed.
+
+(* do_refinement (one refined object, incl. the scheme extension with update_area on ALL objects when an extend raises lmax) *)
+Theorem do_refinement_keeps_levels st i decs : KeepsLevels st (fst (do_refinement st i decs)).
+Proof.
+  unfold do_refinement. destruct (nth_error (st_objs st) i) as [x|]; [|apply keeps_refl].
+  destruct (refine_area st x (lookup (abox x) decs (false, []))) as [[news ch] inc]. cbn [fst].
+  repeat split; try reflexivity. cbn [st_objs st_lmax st_lmin]. intros j y Hy By.
+  set (objs1 := if inc then map update_area (st_objs st) else st_objs st).
+  assert (H1 : exists y1, nth_error objs1 j = Some y1 /\ abox y1 = abox y /\
+                          (if inc then st_lmax st + 1 else st_lmax st) - a_coarse y1 = st_lmax st - a_coarse y /\
+                          0 <= a_coarse y1 <= (if inc then st_lmax st + 1 else st_lmax st) - st_lmin st).
+  { unfold objs1. destruct inc.
+    - exists (update_area y). rewrite nth_error_map, Hy. unfold in_bounds in By. cbn. repeat split; lia.
+    - exists y. unfold in_bounds in By. repeat split; auto; lia. }
+  destruct H1 as [y1 [N1 [E1 [L1 B1]]]].
+  destruct (nth_kill i objs1 j y1 N1) as [y2 [N2 [E2 C2]]].
+  exists y2. split; [|split; [congruence|split; [rewrite C2; exact L1|unfold in_bounds; cbn [st_lmax st_lmin]; rewrite C2; exact B1]]].
+  rewrite nth_error_app1; [exact N2|]. apply nth_error_Some. rewrite N2. discriminate.
+Qed.
+
+(* the whole selection loop of refine() (before apply_remove) *)
+Theorem refine_loop_keeps_levels decs tol : forall idx st,
+  KeepsLevels st (fst (fold_left (fun (acc : state * list (box * (bool * list nat))) i =>
+                 let '(s, lg) := acc in
+                 match nth_error (st_objs s) i with
+                 | Some x => if Qc_leb tol (a_benefit x) then let '(s', l') := do_refinement s i decs in (s', lg ++ l') else (s, lg)
+                 | None => (s, lg)
+                 end) idx (st, []))).
+Proof.
+  assert (G : forall idx st lg, KeepsLevels st (fst (fold_left (fun (acc : state * list (box * (bool * list nat))) i =>
+                 let '(s, lg) := acc in
+                 match nth_error (st_objs s) i with
+                 | Some x => if Qc_leb tol (a_benefit x) then let '(s', l') := do_refinement s i decs in (s', lg ++ l') else (s, lg)
+                 | None => (s, lg)
+                 end) idx (st, lg)))).
+  { induction idx as [|i idx IH]; intros st lg; [apply keeps_refl|]. cbn [fold_left].
+    destruct (nth_error (st_objs st) i) as [x|]; [|apply IH].
+    destruct (Qc_leb tol (a_benefit x)); [|apply IH].
+    pose proof (do_refinement_keeps_levels st i decs) as K. destruct (do_refinement st i decs) as [s' l']. cbn [fst] in K.
+    apply (keeps_trans st s' _ K). apply IH. }
+  intros idx st. apply G.
+Qed.
+
+(* hence (version 0, d >= 2) every object keeps its VALUE through the refinement loop, whatever is refined or extended around it *)
+Theorem refine_loop_keeps_values (F : box -> lv -> Qc) n st st' :
+  KeepsLevels st st' -> st_dim st = S (S n) -> st_version st = 0 ->
+  forall j y, nth_error (st_objs st) j = Some y -> in_bounds st y ->
+  exists y', nth_error (st_objs st') j = Some y' /\ es_area_value F (st_cp st') y' = es_area_value F (st_cp st) y.
+Proof.
+  intros [D [V [L [B H]]]] Hd Hv j y Hy By. destruct (H j y Hy By) as [y' [N [E [Lv Bd]]]]. exists y'. split; [exact N|].
+  unfold st_cp. rewrite D, V, L, B, Hd, Hv. apply es_v0_value_level; try assumption.
+  unfold in_bounds in Bd. rewrite L in Bd. exact Bd.
+Qed.
